@@ -4,7 +4,7 @@ PROP_MODULES = {
     'C03': ['contracts.builders', 'contracts.shared_grid', 'contracts.c03_grid'],
     'C04': ['contracts.builders', 'contracts.shared_grid', 'contracts.c03_grid', 'contracts.c04_meta', 'contracts.c08_creator', 'contracts.c08_manager', 'contracts.c17_upstream', 'contracts.c01_georef'],
     'C02': ['contracts.builders', 'contracts.shared_grid', 'contracts.c03_grid', 'contracts.c04_meta', 'contracts.c16_limits', 'contracts.c02_addresses'],
-    'C20': ['contracts.builders', 'contracts.shared_grid', 'contracts.c03_grid', 'contracts.c04_meta', 'contracts.c08_creator', 'contracts.c13_expiry', 'contracts.c16_limits', 'contracts.c20_conditional', 'contracts.c10_auth', 'contracts.c14_merge', 'contracts.c18_errors'],
+    'C20': ['contracts.builders', 'contracts.shared_grid', 'contracts.c03_grid', 'contracts.c04_meta', 'contracts.c08_creator', 'contracts.c13_expiry', 'contracts.c16_limits', 'contracts.c20_conditional', 'contracts.c17_upstream', 'contracts.c01_georef', 'contracts.c10_auth', 'contracts.c14_merge', 'contracts.c18_errors'],
     'C17': ['contracts.builders', 'contracts.shared_grid', 'contracts.c03_grid', 'contracts.c17_upstream'],
     'C10': ['contracts.builders', 'contracts.shared_grid', 'contracts.c03_grid', 'contracts.c04_meta', 'contracts.c16_limits', 'contracts.c20_conditional', 'contracts.c10_auth', 'contracts.c14_merge'],
     'C05': ['contracts.builders', 'contracts.shared_grid', 'contracts.c05_compact', 'contracts.c05_paths', 'contracts.c05_sqlite', 'contracts.c06_atomic'],
